@@ -86,20 +86,21 @@ Proof. exact @link_file_spec. Qed.
 Print Assumptions C14_link_cache_transparent.
 
 (* ---- CompilePackage AS A WHOLE: load (package cache) composed with link (SearchResult.Linked cache); the link
-   phase finds files through findFileByPath over whatever packages are loaded (lookup_in; [owner] = packageForFile).
+   phase finds files through findFileByPath: a local path among whatever packages are loaded ([owner] = packageForFile), any other
+   path through the dependency resolver ([is_local], [ext_file]: built-in files and the dependency set, by path) (lookup_in).
    Same bundle, ANY listing / map-iteration orders, ANY fuels, ANY histories of earlier CompilePackage calls on the
    PackageSet (both caches in play; fresh = empty history): two calls that return, return the same linked files
    in the same order *)
 Theorem C14_compile_package_linked_deterministic :
-  forall (F D L : Type) (convert : env -> @srcfile F -> bytes -> D) (owner : bytes -> bytes)
+  forall (F D L : Type) (convert : env -> @srcfile F -> bytes -> D) (owner : bytes -> bytes) (is_local : bytes -> bool) (ext_file : bytes -> option D)
          (deps_of : D -> list bytes) (link1 : D -> list L -> L) lf1 rd1 rf1 lf2 rd2 rf2,
     (forall n l, Permutation (lf1 n l) l) -> (forall n l, Permutation (rd1 n l) l) -> (forall n l, Permutation (rf1 n l) l) ->
     (forall n l, Permutation (lf2 n l) l) -> (forall n l, Permutation (rd2 n l) l) -> (forall n l, Permutation (rf2 n l) l) ->
     forall b, valid b -> forall f1 l1 f2 l2 earlier1 earlier2 n r1 r2 s1 s2 o1 o2,
-      let h1 := compile_link_seq convert lf1 rd1 rf1 owner deps_of link1 f1 l1 b [] [] earlier1 in
-      let h2 := compile_link_seq convert lf2 rd2 rf2 owner deps_of link1 f2 l2 b [] [] earlier2 in
-      compile_and_link convert lf1 rd1 rf1 owner deps_of link1 f1 l1 b (fst h1) (snd h1) n = Some (r1, s1, o1) ->
-      compile_and_link convert lf2 rd2 rf2 owner deps_of link1 f2 l2 b (fst h2) (snd h2) n = Some (r2, s2, o2) ->
+      let h1 := compile_link_seq convert lf1 rd1 rf1 owner is_local ext_file deps_of link1 f1 l1 b [] [] earlier1 in
+      let h2 := compile_link_seq convert lf2 rd2 rf2 owner is_local ext_file deps_of link1 f2 l2 b [] [] earlier2 in
+      compile_and_link convert lf1 rd1 rf1 owner is_local ext_file deps_of link1 f1 l1 b (fst h1) (snd h1) n = Some (r1, s1, o1) ->
+      compile_and_link convert lf2 rd2 rf2 owner is_local ext_file deps_of link1 f2 l2 b (fst h2) (snd h2) n = Some (r2, s2, o2) ->
       o1 = o2.
 Proof. exact @compile_package_linked_deterministic. Qed.
 Print Assumptions C14_compile_package_linked_deterministic.
@@ -107,14 +108,14 @@ Print Assumptions C14_compile_package_linked_deterministic.
 (* what one such call returns: the package's sorted file names, each with what linking it yields through the lookup
    the BUNDLE determines (not the current state of the PackageSet), both cache invariants preserved *)
 Theorem C14_compile_and_link_spec :
-  forall (F D L : Type) (convert : env -> @srcfile F -> bytes -> D) (owner : bytes -> bytes)
+  forall (F D L : Type) (convert : env -> @srcfile F -> bytes -> D) (owner : bytes -> bytes) (is_local : bytes -> bool) (ext_file : bytes -> option D)
          (deps_of : D -> list bytes) (link1 : D -> list L -> L) lf rd rf,
     (forall n l, Permutation (lf n l) l) -> (forall n l, Permutation (rd n l) l) -> (forall n l, Permutation (rf n l) l) ->
-    forall b, valid b -> forall fuel lfuel pc lc n pc' lc' out, both_ok convert owner deps_of link1 b pc lc ->
-      compile_and_link convert lf rd rf owner deps_of link1 fuel lfuel b pc lc n = Some (pc', lc', out) ->
-      both_ok convert owner deps_of link1 b pc' lc'
+    forall b, valid b -> forall fuel lfuel pc lc n pc' lc' out, both_ok convert owner is_local ext_file deps_of link1 b pc lc ->
+      compile_and_link convert lf rd rf owner is_local ext_file deps_of link1 fuel lfuel b pc lc n = Some (pc', lc', out) ->
+      both_ok convert owner is_local ext_file deps_of link1 b pc' lc'
       /\ map fst out = map fst (p_files (spec_pkg convert b n))
-      /\ exists f, spec_list (spec_lookup convert owner b) deps_of link1 f (map fst (p_files (spec_pkg convert b n))) = Some (map snd out).
+      /\ exists f, spec_list (spec_lookup convert owner is_local ext_file b) deps_of link1 f (map fst (p_files (spec_pkg convert b n))) = Some (map snd out).
 Proof. exact @compile_and_link_spec. Qed.
 Print Assumptions C14_compile_and_link_spec.
 
@@ -145,25 +146,26 @@ Print Assumptions C14_loaded_packages_closed.
    an import cycle (imports_wf, frank): there is ONE list of linked files that EVERY call returns - any listing / map
    orders, any fuels above the ranks, after any history of earlier CompilePackage calls on the PackageSet *)
 Theorem C14_compile_package_linked_total :
-  forall (F D L : Type) (convert : env -> @srcfile F -> bytes -> D) (owner : bytes -> bytes)
+  forall (F D L : Type) (convert : env -> @srcfile F -> bytes -> D) (owner : bytes -> bytes) (is_local : bytes -> bool) (ext_file : bytes -> option D)
          (deps_of : D -> list bytes) (link1 : D -> list L -> L) b rank frank,
-    valid b -> well_founded_deps b rank -> owner_ok convert owner b -> imports_wf convert owner deps_of b frank ->
+    valid b -> well_founded_deps b rank -> owner_ok convert owner is_local b -> imports_wf convert owner is_local ext_file deps_of b frank ->
     forall n, find_pkg n b <> None ->
     exists out, forall lf rd rf,
       (forall n l, Permutation (lf n l) l) -> (forall n l, Permutation (rd n l) l) -> (forall n l, Permutation (rf n l) l) ->
       forall fuel lfuel earlier, (rank n < fuel)%nat ->
         (forall o, In o (map fst (p_files (spec_pkg convert b n))) -> (frank o < lfuel)%nat) ->
-        let h := compile_link_seq convert lf rd rf owner deps_of link1 fuel lfuel b [] [] earlier in
-        exists pc' lc', compile_and_link convert lf rd rf owner deps_of link1 fuel lfuel b (fst h) (snd h) n = Some (pc', lc', out).
+        let h := compile_link_seq convert lf rd rf owner is_local ext_file deps_of link1 fuel lfuel b [] [] earlier in
+        exists pc' lc', compile_and_link convert lf rd rf owner is_local ext_file deps_of link1 fuel lfuel b (fst h) (snd h) n = Some (pc', lc', out).
 Proof. exact @compile_package_linked_total. Qed.
 Print Assumptions C14_compile_package_linked_total.
 
-(* its hypotheses are satisfiable by a bundle with a cross-package and a same-package import, and the call computes *)
+(* its hypotheses are satisfiable by a bundle with a cross-package import, a same-package import and an import of a file of the
+   dependency set that itself imports another one, and the call computes *)
 Example C14_example_linked_total :
-  valid ex_bundle /\ well_founded_deps ex_bundle ex_rank /\ owner_ok ex_conv ex_owner ex_bundle
-  /\ imports_wf ex_conv ex_owner (fun d : list bytes => d) ex_bundle ex_frank
-  /\ exists pc lc, compile_and_link ex_conv (fun _ l => rev l) (fun _ l => rev l) (fun _ l => rev l) ex_owner (fun d => d) ex_link1
-                                     5%nat 5%nat ex_bundle [] [] [103] = Some (pc, lc, [([99], 4)]).
+  valid ex_bundle /\ well_founded_deps ex_bundle ex_rank /\ owner_ok ex_conv ex_owner ex_is_local ex_bundle
+  /\ imports_wf ex_conv ex_owner ex_is_local ex_ext (fun d : list bytes => d) ex_bundle ex_frank
+  /\ exists pc lc, compile_and_link ex_conv (fun _ l => rev l) (fun _ l => rev l) (fun _ l => rev l) ex_owner ex_is_local ex_ext
+                                     (fun d => d) ex_link1 5%nat 6%nat ex_bundle [] [] [103] = Some (pc, lc, [([99], 8)]).
 Proof. exact (conj ex_valid (conj ex_wf (conj ex_owner_ok (conj ex_imports_wf ex_total_value)))). Qed.
 Print Assumptions C14_example_linked_total.
 
